@@ -16,12 +16,11 @@ def allowedMapSites : List (String × String × String) :=
      ("afm", "sorted", "iterate (GlyphInfo).Ligatures"),
      ("afm", "sorted", "iterate (Metrics).Glyphs"),
      ("afm", "sorted", "iterate (Metrics).Glyphs"),               -- FontBBoxPDF: union in name order
+     ("type1", "sorted", "iterate (Font).Glyphs"),                -- GlyphList, sortedGlyphNames (font boxes)
      ("type1", "sorted", "iterate (Font).Glyphs"),
      ("type1", "sorted", "iterate (Interpreter).FontDirectory"),
      ("type1", "sorted", "iterate local:Dict"),
-     ("type1", "unsorted", "iterate (Font).Glyphs"),              -- FontBBox, FontBBoxPDF: union; WidthsMapPDF and
-     ("type1", "unsorted", "iterate (Font).Glyphs"),              -- encodeCharstrings: map to map
-     ("type1", "unsorted", "iterate (Font).Glyphs"),
+     ("type1", "unsorted", "iterate (Font).Glyphs"),              -- WidthsMapPDF and encodeCharstrings: map to map
      ("type1", "unsorted", "iterate (Font).Glyphs")]
 theorem map_sites : within Structure.mapSites allowedMapSites = true := by decide
 
